@@ -8,28 +8,11 @@
 -/
 import Pdlv.Wire
 import Pdlv.Lemmas.Bits
+import Pdlv.Lemmas.Enc
+import Pdlv.Lemmas.RoundTrip
+import Pdlv.Thm.C03
 
 namespace Pdlv
-
-/-- **integers round-trip at every width and in both byte orders**: what `put_uint{_le}(v, k)`
-    writes, `get_uint{_le}(k)` reads back — for every k and every v that fits -/
-theorem getUint_putUint (e : Endian) (k v : Nat) (rest : Bytes) (hv : v < 2 ^ (8 * k)) :
-    getUint e (8 * k) (putUint e (8 * k) v ++ rest) = .ok (v, rest) := by
-  have hk : 8 * k / 8 = k := by omega
-  unfold getUint putUint
-  simp only [hk]
-  cases e with
-  | little =>
-    simp only [List.length_append, toLE_length]
-    have : ¬ (k + rest.length < k) := by omega
-    simp only [this, ↓reduceIte]
-    rw [List.take_left' (toLE_length k v), List.drop_left' (toLE_length k v), fromLE_toLE_of_lt k v hv]
-  | big =>
-    simp only [List.length_append, toBE_length]
-    have : ¬ (k + rest.length < k) := by omega
-    simp only [this, ↓reduceIte]
-    rw [List.take_left' (toBE_length k v), List.drop_left' (toBE_length k v)]
-    simp [fromBE, toBE, fromLE_toLE_of_lt k v hv]
 
 /-- **bit-field groups round-trip for every list of widths**: extracting
     `(chunk >> shift) & mask(w)` at running shifts from the packed group returns every field -/
@@ -82,5 +65,282 @@ example :
     ((decodeFull c b [0x8d]).bind fun v =>
       .ok (v.get? "a" |>.bind Value.asNat?, v.get? "b" |>.bind Value.asNat?)) = .ok (some 5, some 17) := by
   constructor <;> rfl
+
+/-! ### whole packets -/
+
+theorem payloadMode_of_modes : ∀ (is : Items), (payloadModes is).length ≤ 1 →
+    ∀ md ∈ payloadModes is, payloadMode is = some md
+  | .nil, _, md, h => by simp [payloadModes] at h
+  | .cons i r, hl, md, h => by
+    cases i with
+    | payload m =>
+      simp only [payloadModes, List.length_cons] at hl
+      have : payloadModes r = [] := by
+        cases hr : payloadModes r with
+        | nil => rfl
+        | cons _ _ => simp [hr] at hl
+      simp only [payloadModes, this, List.mem_singleton] at h
+      simp [payloadMode, h]
+    | chunk fs => simp only [payloadModes] at hl h; simp only [payloadMode]; exact payloadMode_of_modes r hl md h
+    | array id elem ew shape pad => simp only [payloadModes] at hl h; simp only [payloadMode]; exact payloadMode_of_modes r hl md h
+    | typedef id ty sb => simp only [payloadModes] at hl h; simp only [payloadMode]; exact payloadMode_of_modes r hl md h
+    | optional id ty ci cv => simp only [payloadModes] at hl h; simp only [payloadMode]; exact payloadMode_of_modes r hl md h
+
+/-- a struct with at least one mandatory octet never encodes to nothing -/
+theorem struct_enc_nonempty (ce : Cfg) (nm nm' : String) (items : Items) (hmin : 0 < minEnc items)
+    (hl : lenWfItems items = true) (x : Value) (b : Bytes)
+    (he : encTy ce (.struct nm (.root nm' items)) x = .ok b) : b ≠ [] := by
+  simp only [encTy, encBody] at he
+  split at he
+  · cases he
+  · rename_i p hp
+    have h1 := encItems_len ce items p p.length x items b hl he
+    have h2 := minEnc_le_lenItemsP x p.length items
+    intro hb
+    rw [hb] at h1
+    simp at h1
+    omega
+
+mutual
+/-- field and element types: the decoder inverts the encoder and leaves what follows untouched -/
+theorem ty_rt (ce cd : Cfg) (hce : ce.mode = .ideal) (hee : ce.e = cd.e) : ∀ (ty : Ty), rtWfTy ty = true →
+    ElemRT (encTy ce ty) (decTy cd ty) (canonTy ty)
+  | .scalar w, hw => by
+    intro x bs rest hb he
+    have := scalar_rt ce cd hce hee w (by simpa [rtWfTy] using hw) x bs rest hb he
+    simpa [canonTy] using this
+  | .enumTy nm en, hw => by
+    intro x bs rest hb he
+    have := enum_rt ce cd hee nm en (by simpa [rtWfTy] using hw) x bs rest hb he
+    simpa [canonTy] using this
+  | .custom nm w, hw => by
+    intro x bs rest hb he
+    have := custom_rt ce cd hee nm w (by simpa [rtWfTy] using hw) x bs rest hb he
+    simpa [canonTy] using this
+  | .struct _ (.root nm items), hw => by
+    intro x bs rest hb he
+    simp only [rtWfTy, Bool.and_eq_true, decide_eq_true_eq, Bool.not_eq_true'] at hw
+    obtain ⟨⟨⟨⟨hwi, hdi⟩, hnd⟩, hng⟩, hpm⟩ := hw
+    simp only [encTy, encBody] at he
+    simp only [decTy, decBody, canonTy, canonBody]
+    split at he
+    · cases he
+    · rename_i p hp
+      obtain ⟨st', h1, h2, h3⟩ := items_rt ce cd hce hee items p x hnd items [] bs rest DState.empty hwi hdi
+        (by intro k hk; simp at hk) (by intro k y hk; simp [DState.empty, Ctx.get] at hk)
+        (fun t ht => ht) (fun t ht => ht) (payloadMode_of_modes items hpm) he
+        (by intro hg; rw [hng] at hg; cases hg) hb
+      rw [h1]
+      simp only [Outcome.bind, h2, h3, DState.empty, List.nil_append]
+      by_cases hh : items.hasPayload = true
+      · simp only [hh, ↓reduceIte] at hp ⊢
+        simp only [payloadBytes, hp, Option.getD_some]
+      · have hh' : items.hasPayload = false := by simpa using hh
+        simp only [hh', Bool.false_eq_true, ↓reduceIte]
+  | .struct _ (.derived ..), hw => by simp [rtWfTy] at hw
+
+/-- **the field list, in lock step**: decoding what the reference-mode encoder wrote for the items
+    `is` (a suffix of the field list `all`), from a decoder state that knows what the earlier items
+    bound, consumes exactly those octets and appends exactly the items' fields -/
+theorem items_rt (ce cd : Cfg) (hce : ce.mode = .ideal) (hee : ce.e = cd.e) (all : Items) (p : Bytes) (v : Value)
+    (hnd : (arrayIds all).Nodup) :
+    ∀ (is : Items) (avail : List Key) (bs rest : Bytes) (st : DState),
+      rtWfItems all is = true → decWfItems avail is = true → CtxHas st avail → CtxGood all p.length v st →
+      (∀ t ∈ optItems is, t ∈ optItems all) → (∀ t ∈ arrayItems is, t ∈ arrayItems all) →
+      (∀ md ∈ payloadModes is, payloadMode all = some md) →
+      encItems ce all (.ok p) p.length v is = .ok bs →
+      (greedyItems is = true → rest = []) → (bs ++ rest).length < usizeMax →
+      ∃ st', decItems cd is (bs ++ rest) st = .ok (st', rest) ∧ st'.fields = st.fields ++ canonItems is v ∧
+        st'.payload = (if is.hasPayload then some p else st.payload)
+  | .nil, avail, bs, rest, st, _, _, _, _, _, _, _, he, _, _ => by
+    simp only [encItems, Outcome.ok.injEq] at he
+    subst he
+    exact ⟨st, by simp [decItems], by simp [canonItems], by simp [Items.hasPayload]⟩
+  | .cons i r, avail, bs, rest, st, hw, hd, hch, hg, hopt, harr, hpm, he, hgr, hb => by
+    simp only [rtWfItems, Bool.and_eq_true] at hw
+    obtain ⟨⟨hwi, htail⟩, hwr⟩ := hw
+    simp only [decWfItems, Bool.and_eq_true] at hd
+    simp only [encItems] at he
+    obtain ⟨a, ha, h2⟩ := bind_ok _ _ _ he
+    obtain ⟨b, hbr, h3⟩ := bind_ok _ _ _ h2
+    simp only [Outcome.ok.injEq] at h3
+    subst h3
+    have hb' : (a ++ (b ++ rest)).length < usizeMax := by simpa [List.append_assoc] using hb
+    -- the item itself
+    have hitem : ∃ st1, decItem cd i (a ++ (b ++ rest)) st = .ok (st1, b ++ rest) ∧
+        ItemPost all p.length v i p st st1 := by
+      cases i with
+      | chunk fs =>
+        simp only [rtWfItem, Bool.and_eq_true, beq_iff_eq, List.all_eq_true] at hwi
+        obtain ⟨st1, q1, q2, q3, q4⟩ := chunk_rt ce cd hce hee all (.ok p) p.length v fs a (b ++ rest) st hwi.1
+          (fun f hf => ⟨(hwi.2 f hf).1, Or.inr (hwi.2 f hf).2⟩) ha hg
+        exact ⟨st1, q1, q2, by simpa using q3, q4⟩
+      | typedef id ty sb =>
+        simp only [rtWfItem, Bool.and_eq_true] at hwi
+        exact typedef_item_rt ce cd hee all (.ok p) p.length v p id ty sb hwi.2
+          (fun nm w h => by subst h; simpa [rtWfTy] using hwi.1)
+          (ty_rt ce cd hce hee ty hwi.1) a (b ++ rest) st hb' ha hg
+      | optional id ty cid cval =>
+        simp only [rtWfItem] at hwi
+        simp only [decWfItem, Bool.and_eq_true] at hd
+        exact optional_item_rt ce cd hce hee all (.ok p) p.length v p id ty cid cval
+          (fun w h => by subst h; simpa [rtWfTy] using hwi)
+          (ty_rt ce cd hce hee ty hwi) (hopt _ (by simp [optItems])) a (b ++ rest) st hb' ha hg
+          (ctxHas_contains st avail _ hch hd.1.1)
+      | payload mode =>
+        simp only [decWfItem] at hd
+        have hgi : greedyItem (.payload mode) = true → rest = [] := fun h => hgr (by simp [greedyItems, h])
+        refine payload_item_rt ce cd all p v mode (hpm mode (by simp [payloadModes])) a (b ++ rest) st ha hg ?_ ?_ ?_ ?_
+        · intro m hm
+          subst hm
+          exact ctxHas_contains st avail _ hch hd.1
+        · intro hm
+          subst hm
+          simp only [tailOk] at htail
+          cases r with
+          | nil =>
+            simp only [encItems, Outcome.ok.injEq] at hbr
+            rw [← hbr, hgi rfl]; rfl
+          | cons _ _ => simp at htail
+        · intro k hm
+          subst hm
+          simp only [tailOk, Bool.and_eq_true, beq_iff_eq, Bool.not_eq_true'] at htail
+          rw [hgi rfl, List.append_nil]
+          exact encItems_static ce all (.ok p) p.length v r b k htail.1 hbr
+        · intro hm
+          subst hm
+          simp [tailOk] at htail
+      | array id elem ew shape pad =>
+        simp only [rtWfItem, Bool.and_eq_true, bne_iff_ne, ne_eq] at hwi
+        obtain ⟨⟨⟨hwt, hlw⟩, hidp⟩, hew⟩ := hwi
+        simp only [decWfItem, Bool.and_eq_true] at hd
+        have hfa := firstArray_of_mem all id elem ew (harr _ (by simp [arrayItems])) hnd
+        have hgi : greedyItem (.array id elem ew shape pad) = true → rest = [] := fun h => hgr (by simp [greedyItems, h])
+        refine array_item_rt ce cd all (.ok p) p.length v p id elem ew shape pad (ty_rt ce cd hce hee elem hwt)
+          (fun x bb hx => encTy_len ce elem x bb hlw hx) ?_ ?_ ?_ hfa hidp a (b ++ rest) st hb' ha hg ?_ ?_ ?_
+        · intro w hs
+          subst hs
+          simp only [Bool.and_eq_true, decide_eq_true_eq, beq_iff_eq] at hew
+          exact ⟨hew.1, fun x bb hx => encTy_static ce elem x bb w hew.2 hx⟩
+        · intro hs
+          subst hs
+          cases elem with
+          | scalar w => simp at hew
+          | enumTy nm en => simp at hew
+          | custom nm w => simp at hew
+          | struct nm bdy =>
+            cases bdy with
+            | root nm' items' =>
+              simp only [Bool.and_eq_true, decide_eq_true_eq] at hew
+              exact fun x bb hx => struct_enc_nonempty ce nm nm' items' hew.1 hew.2 x bb hx
+            | derived _ _ _ _ _ => simp at hew
+        · intro hs
+          subst hs
+          simp at hew
+        · intro hs
+          subst hs
+          exact ctxHas_contains st avail _ hch hd.1.2
+        · intro hs
+          subst hs
+          exact ctxHas_contains st avail _ hch hd.1.2
+        · intro hs
+          subst hs
+          cases pad with
+          | some q => simp [tailOk] at htail
+          | none =>
+            simp only [tailOk] at htail
+            cases r with
+            | nil =>
+              simp only [encItems, Outcome.ok.injEq] at hbr
+              exact ⟨rfl, by rw [← hbr, hgi rfl]; rfl⟩
+            | cons _ _ => simp at htail
+    obtain ⟨st1, hdec1, hf1, hp1, hg1⟩ := hitem
+    -- the remaining items
+    have hch1 : CtxHas st1 (availAfter avail i) := decItem_ctx cd i _ st st1 _ avail hdec1 hch
+    have hopt' : ∀ t ∈ optItems r, t ∈ optItems all := by
+      intro t ht; apply hopt
+      cases i <;> simp [optItems, ht]
+    have harr' : ∀ t ∈ arrayItems r, t ∈ arrayItems all := by
+      intro t ht; apply harr
+      cases i <;> simp [arrayItems, ht]
+    have hpm' : ∀ md ∈ payloadModes r, payloadMode all = some md := by
+      intro md hmd; apply hpm
+      cases i <;> simp [payloadModes, hmd]
+    have hgr' : greedyItems r = true → rest = [] := fun h => hgr (by simp [greedyItems, h])
+    have hb'' : (b ++ rest).length < usizeMax := by
+      simp only [List.length_append] at hb ⊢; omega
+    obtain ⟨st', hdec2, hf2, hp2⟩ := items_rt ce cd hce hee all p v hnd r (availAfter avail i) b rest st1
+      hwr hd.2 hch1 hg1 hopt' harr' hpm' hbr hgr' hb''
+    refine ⟨st', ?_, ?_, ?_⟩
+    · simp only [decItems, List.append_assoc, hdec1, Outcome.bind, hdec2]
+    · rw [hf2, hf1]; simp [canonItems, List.append_assoc]
+    · rw [hp2, hp1]
+      cases i <;> first | rfl | simp [Items.hasPayload]
+end
+
+/-- **C02, decoder side.**  For every packet or struct without parent whose layout is in the
+    round-trippable class (`rtWfBody`: decidable, evaluated by the check on every generated layout),
+    both byte orders, the decoder in either mode (the model of the emitted decoder, or the reference
+    decoder), every value `v` the reference-mode encoder accepts (= every in-range value) and every
+    continuation `rest` of the input (`rest = []` when the layout ends with an item that takes "all
+    the rest"): decoding the encoding followed by `rest` returns exactly the value (`canonBody`:
+    its fields in declaration order) and `rest` — no bound on array lengths, nesting or sizes other
+    than the input being shorter than `usize::MAX`. -/
+theorem roundtrip (e : Endian) (m : Mode) (nm : String) (items : Items) (hw : rtWfBody (.root nm items) = true)
+    (v : Value) (bs rest : Bytes) (he : encBody { e := e, mode := .ideal } (.root nm items) v = .ok bs)
+    (hgr : greedyItems items = true → rest = []) (hb : (bs ++ rest).length < usizeMax) :
+    decBody { e := e, mode := m } (.root nm items) (bs ++ rest) = .ok (canonBody (.root nm items) v, rest) := by
+  simp only [rtWfBody, Bool.and_eq_true, decide_eq_true_eq] at hw
+  obtain ⟨⟨⟨hwi, hdi⟩, hnd⟩, hpm⟩ := hw
+  simp only [encBody] at he
+  simp only [decBody, canonBody]
+  split at he
+  · cases he
+  · rename_i p hp
+    obtain ⟨st', h1, h2, h3⟩ := items_rt { e := e, mode := .ideal } { e := e, mode := m } rfl rfl items p v hnd items []
+      bs rest DState.empty hwi hdi (by intro k hk; simp at hk) (by intro k y hk; simp [DState.empty, Ctx.get] at hk)
+      (fun t ht => ht) (fun t ht => ht) (payloadMode_of_modes items hpm) he hgr hb
+    rw [h1]
+    simp only [Outcome.bind, h2, h3, DState.empty, List.nil_append]
+    by_cases hh : items.hasPayload = true
+    · simp only [hh, ↓reduceIte] at hp ⊢
+      simp only [payloadBytes, hp, Option.getD_some]
+    · have hh' : items.hasPayload = false := by simpa using hh
+      simp only [hh', Bool.false_eq_true, ↓reduceIte]
+
+/-- `decode_full ∘ encode` is the identity (up to the normal form of the value) -/
+theorem roundtrip_full (e : Endian) (m : Mode) (nm : String) (items : Items) (hw : rtWfBody (.root nm items) = true)
+    (v : Value) (bs : Bytes) (he : encBody { e := e, mode := .ideal } (.root nm items) v = .ok bs)
+    (hb : bs.length < usizeMax) :
+    decodeFull { e := e, mode := m } (.root nm items) bs = .ok (canonBody (.root nm items) v) := by
+  have := roundtrip e m nm items hw v bs [] he (fun _ => rfl) (by simpa using hb)
+  simp only [List.append_nil] at this
+  simp [decodeFull, this, Outcome.bind]
+
+/-- **C02.**  The model of the *emitted* encoder followed by the model of the *emitted* decoder: for
+    every in-range value the emitted `encode_to_vec` succeeds with the reference bytes and the emitted
+    `decode_full` of those bytes is the value. -/
+theorem roundtrip_rust (e : Endian) (nm : String) (items : Items) (hw : rtWfBody (.root nm items) = true)
+    (hn : noModBody (.root nm items) = true) (v : Value) (bs : Bytes)
+    (he : encBody { e := e, mode := .ideal } (.root nm items) v = .ok bs) (hb : bs.length < usizeMax) :
+    encBody { e := e, mode := .rust } (.root nm items) v = .ok bs ∧
+    decodeFull { e := e, mode := .rust } (.root nm items) bs = .ok (canonBody (.root nm items) v) :=
+  ⟨encBody_ideal_to_rust e _ v bs hn he, roundtrip_full e .rust nm items hw v bs he hb⟩
+
+/-- a value that is already in normal form comes back unchanged -/
+theorem roundtrip_id (e : Endian) (m : Mode) (nm : String) (items : Items) (hw : rtWfBody (.root nm items) = true)
+    (v : Value) (hv : canonBody (.root nm items) v = v) (bs : Bytes)
+    (he : encBody { e := e, mode := .ideal } (.root nm items) v = .ok bs) (hb : bs.length < usizeMax) :
+    decodeFull { e := e, mode := m } (.root nm items) bs = .ok v := by
+  rw [roundtrip_full e m nm items hw v bs he hb, hv]
+
+/-! non-vacuity: `packet P { _count_(x): 8, c: 1, _reserved_: 7, x: 16[], o: 8 if c = 1, _payload_ }`
+    is in the round-trippable class -/
+example : rtWfBody (.root "P" (.cons (.chunk [.count "x" 8, .flag "c" [("o", 1)], .reserved 7])
+    (.cons (.array "x" (.scalar 16) (.static 2) .countField none)
+    (.cons (.optional "o" (.scalar 8) "c" 1) (.cons (.payload .last) .nil))))) = true := by
+  simp [rtWfBody, rtWfItems, rtWfItem, rtWfTy, tailOk, decWfItems, decWfItem, decWfTy, availAfter, chunkKeys,
+    staticTy, lenWfTy, arrayIds, payloadModes, chunkBits, BitField.width, bfRtOk, bfNoArrayMod, optItems,
+    firstArray, Ty.selfGuarded, greedyItems, greedyItem]
 
 end Pdlv
